@@ -149,12 +149,21 @@ def flow_invariant(d, Y, A, nys, nsol, rvar='r'):
                 acc = acc + A[i][j] * Y[j][s]
             row.append(acc - X.diff(Y[i][s], rvar))
         Mx.append(row)
-    for pt in d.points:
+    n_eval = 0; tries = 0
+    pts = list(d.points)
+    while pts or (n_eval == 0 and tries < 80):
+        if pts:
+            pt = pts.pop(0)
+        else:
+            tries += 1
+            pt = d.extra_point()          # every point so far hit a pole / a non-residue under a root: never pass on zero evaluations
+            if pt is None: continue
         try:
             Yv = [[pt.ev(Y[i][s]) for s in range(nsol)] for i in range(nys)]
             Mv = [[pt.ev(Mx[i][s]) for s in range(nsol)] for i in range(nys)]
         except X.Resample:
             continue
+        n_eval += 1
         rY = X.rank_gf(Yv)
         rYM = X.rank_gf([Yv[i] + Mv[i] for i in range(nys)])
         if rY != nsol:
@@ -164,6 +173,8 @@ def flow_invariant(d, Y, A, nys, nsol, rvar='r'):
             res = max(d.residual(Mx[i][s])[0] for i in range(nys) for s in offenders) if offenders else 0
             return False, (f'rank[Y | A Y - dY/dr] = {rYM} > rank Y = {rY}: A*Y_s - dY_s/dr leaves the span of the starting vectors for solution slot(s) {offenders} '
                            f'(float residual up to {res:.3g})')
+    if n_eval == 0:
+        raise AnalysisError('span flow-invariance: no sample point could be evaluated (all hit poles / non-residues)')
     return True, ''
 
 
